@@ -421,7 +421,7 @@ def neighbours(c):
 def shrink(case, tag):
     """greedy: smaller numbers / fewer operations while the oracle still fails on the implementation"""
     cur = case
-    for _ in range(25):
+    for _ in range(12):
         cands = []
         if cur["kind"] == "h":
             for k in range(len(cur["ops"])):
@@ -517,8 +517,13 @@ def run(ctx):
             continue
         c = cases[i]
         if code >= 2:
-            small = shrink(c, "c04s") if len(failures) < 3 and not ctx.replay else c
-            cd2, _, impl2 = evaluate([small], tag="c04r")
+            if len(failures) >= 8:
+                continue
+            small = shrink(c, "c04s") if len(failures) < 1 and not ctx.replay else c
+            if small is c:
+                cd2, impl2 = [code], [impl[i]]
+            else:
+                cd2, _, impl2 = evaluate([small], tag="c04r")
             failures.append({
                 "signature": signature(small),
                 "what": "observed sizing contradicts the C04 oracle (exact rational clauses / history rules): "
